@@ -23,8 +23,37 @@ def _names_in(e):
     return out
 
 
-def _dstar_keys(m, e):
-    """Keys contributed by a `**expr` argument, or None when unknown (open set)."""
+def _dstar_keys(m, e, func=None, stmt=None):
+    """Keys contributed by a `**expr` argument, or None when unknown (open set).  A local dictionary (`d = s.c_kwargs()` ... `d['k'] = v` ... `f(**d)`)
+    contributes the keys of its single definition plus the keys stored by statements that are executed on every path to the call (same block or an
+    enclosing block, earlier)."""
+    if e[0] == 'var' and func is not None and stmt is not None and e[1] not in func.all_params:
+        defs = [t for t in walk_stmts(func.body) if t.k == 'assign' and t.target == e]
+        if len(defs) != 1:
+            return None
+        base = _dstar_keys(m, defs[0].value)
+        if base is None:
+            return None
+        # block path of the call statement
+        path = []
+
+        def find(stmts, acc):
+            for i_, t in enumerate(stmts):
+                if t is stmt:
+                    path.extend(acc + [(stmts, i_)])
+                    return True
+                from ..ir import sub_blocks
+                for b in sub_blocks(t):
+                    if find(b, acc + [(stmts, i_)]):
+                        return True
+            return False
+        find(func.body, [])
+        keys = set(base)
+        for blk, idx in path:
+            for t in blk[:idx]:
+                if t.k == 'assign' and t.target[0] == 'idx' and t.target[1] == e and t.target[2][0] == 'str':
+                    keys.add(t.target[2][1])
+        return keys
     if e[0] == 'call':
         d = dotted(e[1])
         if d and d.split('.')[-1] in ('kwargs', 'c_kwargs') and len(d.split('.')) >= 2:
@@ -147,6 +176,34 @@ def rule_delegation(ctx, m, modules, floor=None):
                     ctx.check(has_d or has_kw, 'R-FWD', mod.path, q, 'options to %s' % dotted(call[1]),
                               '%s receives its options as **%s, but calls %s without any ** mapping or keyword: the callee runs with default settings '
                               '(window, penalty, psi, ... are dropped)' % (q, f.kwarg, r[1].qual), s.line)
+            # (1f) alternative delegates of one family (K and K_ndim, chosen by a branch) that collect their options as **kwargs receive the same
+            # named wrapper options: an option handed to one of them (as k=p, or as a key of the ** dictionary) and not to its sibling is dropped on that branch
+            fam = {}
+            for s_, call in deleg:
+                r = _resolve_any(m, mod, f, call)
+                if r is None or not r[1].kwarg:
+                    continue
+                given = {k for k, v in call[3] if k is not None and k in wparams}
+                known = True
+                for k, v in call[3]:
+                    if k is None:
+                        ks = _dstar_keys(m, v, f, s_)
+                        if ks is None and v != ('var', f.kwarg):
+                            known = False
+                        given |= {x for x in (ks or ()) if x in wparams}
+                if known:
+                    base_name = (dotted(call[1]) or '').replace('_ndim', '')
+                    fam.setdefault(base_name, []).append((s_, call, given))
+            for base_name, members in fam.items():
+                if len(members) < 2:
+                    continue
+                allg = set().union(*[g for _s, _c, g in members])
+                for s_, call, given in members:
+                    n += 1
+                    miss = sorted(allg - given)
+                    ctx.check(not miss, 'R-FWD', mod.path, q, 'sibling delegate %s options' % dotted(call[1]),
+                              'the option(s) %s of %s reach %s but not %s: on that branch the callee runs with its default'
+                              % (miss, q, sorted(dotted(c_[1]) for _s, c_, g_ in members if set(miss) <= g_), dotted(call[1])), s_.line)
             # (1b) any other in-package call that shares two or more parameter names with its caller is a wrapping call as well
             inner = [(s, c) for s, c in calls_in(f.body) if id(c) not in dids]
             for s, call in deleg + inner:
@@ -167,7 +224,7 @@ def rule_delegation(ctx, m, modules, floor=None):
                 open_dstar = False
                 dkeys = set()
                 for de in dstars:
-                    ks = _dstar_keys(m, de)
+                    ks = _dstar_keys(m, de, f, s)
                     if ks is None:
                         if de == ('var', f.kwarg):
                             continue   # wrapper's own **kwargs: cannot contain a named wrapper parameter
@@ -369,18 +426,47 @@ def rule_key_tables(ctx, m):
     if ck is None or kk is None:
         from ..cfront import AnalysisError
         raise AnalysisError('anchor vanished: DTWSettings.kwargs/c_kwargs dict literal')
+    # (an attribute stored only as a neutral constant or a plain copy of self.<key> stands for that key: see below)
+    copies0 = {}
+    for q_, g_ in dtw.funcs.items():
+        if q_.startswith('DTWSettings.'):
+            for t_ in walk_stmts(g_.body):
+                if t_.k == 'assign' and t_.target[0] == 'attr' and t_.target[1] == ('var', 'self'):
+                    copies0.setdefault(t_.target[2], []).append(t_.value)
+    NEUTRAL0 = (('num', float('inf')), ('var', 'inf'), ('num', 0), ('none',))
+
+    def stands_for(attr):
+        vals = copies0.get(attr) or []
+        srcs = {v_[2] for v_ in vals if v_[0] == 'attr' and v_[1] == ('var', 'self')}
+        if vals and len(srcs) == 1 and all(v_ in NEUTRAL0 or (v_[0] == 'attr' and v_[1] == ('var', 'self')) for v_ in vals):
+            return list(srcs)[0]
+        return None
     # key <-> value agreement
     for meth, table in (('kwargs', kk), ('c_kwargs', ck)):
         for k, v in table:
             names = _names_in(v) | {sub[2] for sub in walk_expr(v) if sub[0] == 'attr'}
+            names |= {stands_for(a_) for a_ in list(names) if stands_for(a_)}
             ok = k in names
             ctx.check(ok, 'R-TAB', dtw.path, 'DTWSettings.' + meth, "key '%s' value %s" % (k, fmt(v)),
                       "dict key '%s' is filled from %s" % (k, fmt(v)))
     # c_kwargs: each local is derived from the same-named attribute
     f = dtw.funcs['DTWSettings.c_kwargs']
     from .tables import ckwargs_entries
+    # an attribute that every method of the class stores only as a neutral constant or as a plain copy of self.<key> (adj_max_length_diff) is the key's own
+    # value up to the None / inf normalisation; one that is stored converted (inner_val(..), a bound) is a different quantity
+    copies = {}
+    for q_, g_ in dtw.funcs.items():
+        if not q_.startswith('DTWSettings.'):
+            continue
+        for t_ in walk_stmts(g_.body):
+            if t_.k == 'assign' and t_.target[0] == 'attr' and t_.target[1] == ('var', 'self'):
+                copies.setdefault(t_.target[2], []).append(t_.value)
+    NEUTRAL = (('num', float('inf')), ('var', 'inf'), ('num', 0), ('none',))
     for key_, val_, line_ in ckwargs_entries(f):
         attrs = {sub[2] for sub in walk_expr(val_) if sub[0] == 'attr' and sub[1] == ('var', 'self')}
+        alias = {a_ for a_ in attrs if a_ != key_ and copies.get(a_) and all(v_ in NEUTRAL or v_ == ('attr', ('var', 'self'), key_) for v_ in copies[a_])}
+        if alias:
+            attrs = (attrs - alias) | {key_}
         if attrs:
             ctx.check(key_ in attrs, 'R-TAB', dtw.path, 'DTWSettings.c_kwargs', '%s computed from its attribute' % key_,
                       "entry '%s' is computed from self.%s" % (key_, sorted(attrs)), line=line_)
